@@ -24,7 +24,8 @@ MANIFEST = {
             "senders.  RELEASE CALLBACK: adl_release_once (every exit path of coap_add_data_large_internal calls it once or hands it to exactly "
             "one linked lg_xmit) + release_exactly_once (any create/delete/session-free sequence: never twice, exactly once at session free).  "
             "request_tag_tells_transfers_apart (lg_srcv lookup keyed by Request-Tag presence AND value, EMPTY tag included).  COMPOSED, Block2: "
-            "never_wrong_body_block2_composed_partial - libcoap server (first block via adlBody, follow-ups via xmitB2Step, fresh ETag per lg_xmit) "
+            "never_wrong_body_block2_composed_partial - libcoap server (first block via adlBody on the response path's parameters, "
+            "response_path_params_ok; follow-ups via xmitB2Step; fresh ETag per lg_xmit) "
             "o network (any loss / duplication / delay / reordering, repeated GETs, time-outs of either side at any moment) o libcoap client, for "
             "EVERY schedule, with no hypothesis on datagrams: whatever the handler gets is the server's body / an exact slice; "
             "never_wrong_body_block1_composed_partial - libcoap client (addDataLarge + xmitB1Step, early size renegotiation) o network o libcoap "
@@ -49,7 +50,7 @@ REQUIRED_THEOREMS = ["block_opt_roundtrip", "blocks_tile_body", "rblock_represen
                      "never_wrong_body_block2_partial", "at_most_once_block2_partial", "per_block_tiles_once_partial", "server_block2_genuine", "first_block_genuine",
                      "client_block1_slices", "client_block1_genuine_partial", "adl_release_once", "release_exactly_once",
                      "request_tag_tells_transfers_apart", "never_wrong_body_block2_composed_partial",
-                     "never_wrong_body_block1_composed_partial"]
+                     "never_wrong_body_block1_composed_partial", "response_path_params_ok"]
 RULE = ("Layer A: block option values (all single bytes, random 0-3 byte values, boundary NUMs), setup_block_b / coap_write_block_b_opt / "
         "coap_add_data_large_request with the available room around every power of two, slices of bodies whose length is k*2^(szx+4)+{-1,0,1} "
         "for szx 0..6 and random lengths to 64 KiB, every 3-insertion sequence over 5 block numbers plus random longer ones for the received "
@@ -72,7 +73,8 @@ ASSUMPTIONS = ["block numbers < 2^31 at every call of the range functions (coap_
                "transfer per direction (Block1: single-body server, one lg_srcv, body < 2^31; "
                "Block2: datagrams are never removed and a schedule picks any of them any number of times; retransmission timers, "
                "message ids, tokens abstracted; responses the application builds for a follow-up request without lg_xmit and single-message bodies "
-               "are not generated; adlBody's parameters on the response path are a hypothesis (B2ParOK), ETags of different lg_xmits differ); "
+               "are not generated; adlBody's parameters on the response path are a hypothesis (B2ParOK) which response_path_params_ok proves for rspCfg = what the C computes for a GET carrying Block2; ETags of "
+               "different lg_xmits differ); "
                "everything else (timers, tokens, several transfers at once, liveness clauses) is checked as I-vs-S trace conformance only",
                "never_wrong_body_partial: every datagram carries the sender's slice for its NUM/SZX, SZX not below the size the receiver tracks, "
                "an announced Size1 is at most the true length, body < 2^31 bytes",
